@@ -167,7 +167,8 @@ pub fn gen_config(rng: &mut Rng, prof: &Profile, overhead: usize) -> (Config, Ge
         9 => HashMode::Ident,
         _ => HashMode::Good,
     };
-    let mode = if large && matches!(mode, HashMode::Const | HashMode::SameSlot) { HashMode::Good } else { mode };
+    // colliding hashers make every probe linear in the number of entries: not for caches of thousands
+    let mode = if large && matches!(mode, HashMode::Const | HashMode::SameSlot | HashMode::Mod(_)) { HashMode::Good } else { mode };
     let salt = rng.next_u64();
     // universe
     let universe: u32 = if large {
@@ -269,13 +270,19 @@ pub fn gen_config(rng: &mut Rng, prof: &Profile, overhead: usize) -> (Config, Ge
     } else {
         (universe, max_size, mode, steps, kheaps, vheaps, ctor)
     };
+    // once in a few thousand runs: a cache beyond 2^16 entries (counters or budgets in a narrower type)
+    let giant = large && rng.chance(1, if prof.large_pct > 0 { 60 } else { 25 });
     let prefill = if !large {
         0
+    } else if giant {
+        65_536 + rng.below(3) as u32 * 2_000
     } else if prof.large_prefill > 0 {
         prof.large_prefill
     } else {
         260 + rng.below(700) as u32
     };
+    let steps = if giant { steps.min(24) } else { steps };
+    let universe = if giant { prefill + 64 } else { universe };
     let cfg = Config { ctor, mode, salt, max_size, universe, prefill, prefill_vh: vheaps[0] };
     let fresh_pct = if fifo { 100 } else if churn { *rng.pick(&[0u32, 50, 90, 100]) } else { *rng.pick(&[0u32, 0, 0, 5, 30]) };
     let gs = GenState { kheaps, vheaps, weights, recent_gone: Vec::new(), two_caches, refuse_pct: prof.refuse_pct, natural_oom: prof.natural_oom, fresh_next: universe.max(1) + 1000, fresh_pct, fixed_sizes: fifo };
